@@ -73,7 +73,7 @@ def compare(ctx, s, stage, signature_of, describe, nontrivial, oracle=None):
     signature_of(key, s) -> signature dict for a property failure on that case."""
     cases, impl, model, expect = s["cases"], s["impl"], s["model"], s["expect"]
     # "run" cases: the driver prints the reference semantics' verdict there (a specification, not a model of the code)
-    corr = [k for k in cases if k[0] not in ("run", "orun", "ren") and not obs_equal(k[0], impl.get(k), model.get(k))]
+    corr = [k for k in cases if k[0] not in ("run", "orun", "ren", "batrun") and not obs_equal(k[0], impl.get(k), model.get(k))]
     if oracle is None:
         fails = [(k, "expected %s" % expect[k]) for k in expect if impl.get(k) != expect[k]]
         checked = len(expect)
@@ -553,6 +553,55 @@ def run_c18(ctx, ck):
         ctx.samples.append({"case": k[1], "program": prog_source(s["cases"][k])[:300], "observed": decode_run(s["impl"].get(k))})
 
 
+# ---------------------------------------------------------------- C05
+def run_c05(ctx, ck):
+    import re
+    IGNORED_KEYS.update({"bashsyntax", "batchsyntax"})
+    s = ck.run_stream(ctx, "sem-batch", 250 if ctx.tier == "quick" else 6000)
+    stats = {"decided": 0, "spec_undefined": 0, "cmd_unsupported": 0, "cmd_fuel": 0, "beyond_32_bit": 0}
+
+    def oracle(k, s_):
+        if k[0] != "batrun":
+            return False
+        mo = toks(s_["model"].get(k))
+        io = toks(s_["impl"].get(k))
+        if mo.get("spec") != "ran":
+            stats["spec_undefined"] += 1
+            return False
+        if mo.get("cmd") != "ran":
+            stats["cmd_unsupported" if mo.get("cmd") == "unsupported" else "cmd_fuel"] += 1
+            return False
+        spec_out = hexs(mo.get("specout", ""))
+        if re.search(r"[0-9]{10,}", spec_out) or re.search(r"[0-9]{10,}", hexs(mo.get("out", ""))):
+            stats["beyond_32_bit"] += 1
+            return False                              # the property is about 32-bit integers
+        stats["decided"] += 1
+        if (mo.get("out"), mo.get("status")) != (mo.get("specout"), mo.get("specstatus")):
+            return "the Batch script under the cmd.exe model prints %r (exit %s), the reference semantics %r (exit %s)" % (
+                hexs(mo.get("out", ""))[:400], mo.get("status"), spec_out[:400], mo.get("specstatus"))
+        if io.get("out") is not None and (io.get("out"), io.get("status")) != (mo.get("out"), mo.get("status")):
+            return "the Batch script under the cmd.exe model prints %r (exit %s), the Bash script under /bin/bash %r (exit %s)" % (
+                hexs(mo.get("out", ""))[:400], mo.get("status"), hexs(io.get("out", ""))[:400], io.get("status"))
+        return None
+
+    def sig(k, s_):
+        mo = toks(s_["model"].get(k))
+        out, spec = hexs(mo.get("out", "")), hexs(mo.get("specout", ""))
+        src = prog_source(s_["cases"][k])
+        if "func " in src and "panic(" in src and out.startswith(spec) and len(out) > len(spec) and spec.rstrip("\n").split("\n")[-1].startswith("panic: "):
+            return {"class": "panic-in-function"}
+        return {}
+
+    # batrun: the implementation side is the Bash run, the driver side the cmd.exe model: both are decided by the oracle
+    compare(ctx, s, "generated and targeted programs: Batch script bytes (model = implementation), the script under the cmd.exe model against the reference semantics and the Bash run",
+            sig, describe_prog, lambda k, s_: k[0] == "batrun", oracle=oracle)
+    ctx.cov["distribution"] = s["meta"]
+    ctx.cov["cmd_model_runs"] = stats
+    ks = [k for k in s["cases"] if k[0] == "batrun"]
+    for k in ks[:2]:
+        ctx.samples.append({"program": prog_source(s["cases"][k])[:400], "cmd_model": {x: (hexs(v) if x in ("out", "specout") else v) for x, v in toks(s["model"].get(k)).items()}})
+
+
 # ---------------------------------------------------------------- C10
 def run_c10(ctx, ck):
     IGNORED_KEYS.update({"bashsyntax", "batchsyntax"})
@@ -718,6 +767,15 @@ SEM_TRUST = ["coq/Sem/Src.v is the specification of program meaning (validated o
              "the generator's notion of 'defined behaviour' (harness/proggen.go) bounds what is explored"]
 
 PROPS = {
+    "C05": {"run": run_c05,
+            "rule": "13 targeted programs (two-digit slice lengths and indices, assignment inside a slice, sequential and nested loops with break/continue, loops in "
+                    "functions called from loops, if/else-if chains, multi-digit comparisons, 32-bit arithmetic near the limit, panic) plus generated accepted programs over "
+                    "scalars, functions, slices and strings (depth 2-5); every Batch script is executed by the extracted cmd.exe model; non-trivial = decided (reference semantics "
+                    "defined, model supports the script, all printed integers below 10 digits)",
+            "trusted": ["Cmd/CmdModel.v IS NOT VALIDATED AGAINST cmd.exe (none in the sandbox): it encodes the documented rules and agrees with an independent Python model "
+                        "(seeded/C05-m1/cmdmodel.py) on 1518 emitted scripts; a defect shared by both models would go unnoticed",
+                        "the 32-bit restriction is approximated by discarding runs that print an integer of 10 or more digits"],
+            "assumptions": ["cmd.exe behaves as Cmd/CmdModel.v says for the emitted subset"]},
     "C10": {"run": run_c10,
             "rule": "generated accepted programs (and 5 hand-written ones) x injective renamings: one or two identifiers into a class of names "
                     "(13 classes: ordinary, helper variables, return registers, loop flags, dynamic slice names, helper scratch, helper routines, mangled locals, "
